@@ -22,7 +22,7 @@ FAMS = ["single:conv@8", "single:dw@8", "single:maxpool@8", "single:avgpool@8", 
         "single:add@8", "single:sub@8", "single:mul@8", "single:add_bcast@8", "single:mul_scalar@8", "single:concat@u8", "diamond", "siamese", "single:logistic@8", "single:tanh@8", "single:lrelu@8", "single:hswish@8",
         "single:transpose@8", "single:reshape@8", "single:pad@8", "single:slice@8", "single:concat@8", "conv_chain",
         "single:conv", "single:dw", "single:fc", "single:maxpool", "single:avgpool", "single:pad_bc@8",
-        "single:quantize", "single:resize_nearest@8", "single:resize_bilinear@8", "single:tconv@8", "upscale_chain"]
+        "single:quantize", "single:resize_nearest@8", "single:resize_bilinear@8", "single:tconv@8", "upscale_chain", "conv_chain_big", "weights_heavy"]
 
 
 def macs_of(ref):
@@ -141,7 +141,7 @@ def run(tier):
     b = vlib.build_property("C01")
     okx, xlog = vlib.build_extraction("npuExec")
     n = 170 if tier == "quick" else 1400
-    max_macs = 250000 if tier == "quick" else 1500000
+    max_macs = 1200000 if tier == "quick" else 30000000
     rng = random.Random("c01/%d" % vlib.seed())
     jobs = compiles.corpus_jobs(capture=False) + compiles.plan(FAMS, n, vlib.seed(), tag="c01", capture=False)
     results = compiles.run_all(jobs, timeout=900)
@@ -162,7 +162,16 @@ def run(tier):
             continue
         cases.append(flat)
         meta.append((r, expect, tol, signed))
-    outs = models.run_parallel("exec", cases, exe_name="npuExec", timeout=7200) if okx and cases else []
+    outs = []
+    if okx and cases:
+        # one interpreter process per network, longest first, from a pool: a static split would wait for its slowest share
+        import concurrent.futures
+        order = sorted(range(len(cases)), key=lambda i: -len(cases[i]))
+        with concurrent.futures.ThreadPoolExecutor(max_workers=vlib.NCPU) as ex:
+            done = list(ex.map(lambda i: models.run("exec", [cases[i]], exe_name="npuExec", timeout=7200)[0], order))
+        outs = [None] * len(cases)
+        for i, o in zip(order, done):
+            outs[i] = o
     programs, bad, samples = 0, [], []
     kinds = collections.Counter()
     for (r, expect, tol, signed), o in zip(meta, outs):
